@@ -391,11 +391,88 @@ def check_quantity(y, want, label):
     return None
 
 
+def judge_defclear(pairs):
+    """compound-unit names are defined and then ALL cleared through the public API; afterwards no definition is active, so a
+    unit that equals the expansion of a formerly defined name must print and read back like any other unit.  Meant to be
+    run from a fresh library state that has NOT been cleared before (the definitions precede the first clear)."""
+    import qexpy as q
+    us = exponents_string(pairs)
+    try:
+        q.define_unit("Zq", us)
+        q.define_unit("Wq", "Zq*yy")
+        q.define_unit("N", "kg*m/s^2")
+    except Exception as e:  # noqa
+        q.clear_unit_definitions()
+        return None
+    q.clear_unit_definitions()
+    why = judge_map(pairs) or judge_map([("kg", 1), ("m", 1), ("s", -2)])
+    if not why:
+        why = judge_api([(k, int(v) if float(v).is_integer() else v) for k, v in pairs], "same")
+    return "after define_unit('Zq', {!r}), define_unit('N', 'kg*m/s^2') and clear_unit_definitions(): {}".format(us, why) if why else None
+
+
+def judge_recalc(pairs, opname):
+    """a derived quantity whose unit is READ, then the unit of one of its operands is re-assigned and the quantity is
+    recalculated: the unit printed afterwards must be accepted back and parse to the CURRENT exponents (and back again)"""
+    import qexpy as q
+    q.set_unit_style(q.UnitStyle.EXPONENTS)
+    us1 = exponents_string(pairs)
+    pairs2 = [(k + "q", -v) for k, v in pairs][::-1] + [("kg", 2)]
+    us2 = exponents_string(pairs2)
+    w1, w2 = as_fractions(pairs), as_fractions(pairs2)
+
+    def expect(w):
+        if opname == "mul":
+            r = dict(w); r["zz"] = r.get("zz", Fraction(0)) + 1
+        elif opname == "div":
+            r = dict(w); r["zz"] = r.get("zz", Fraction(0)) - 1
+        else:
+            r = {k: v / 2 for k, v in w.items()}
+        return U.nonzero(r)
+    if any(v.denominator > 10 for w in (w1, w2) for v in expect(w).values()):
+        return None
+    for st in STYLES:
+        q.set_unit_style(_style(st))
+        try:
+            try:
+                a = q.Measurement(4.0, 0.2, unit=us1)
+                b = q.Measurement(2.0, 0.1, unit="zz")
+                c = a * b if opname == "mul" else (a / b if opname == "div" else q.sqrt(a))
+            except Exception:  # noqa
+                return None
+            history = [("as created", w1, None), ("after the operand's unit was re-assigned and recalculate()", w2, us2),
+                       ("after the operand's unit was assigned back and recalculate()", w1, us1)]
+            for label, w, new in history:
+                if new is not None:
+                    a.unit = new
+                    c.recalculate()
+                _ = (c.value, str(c))
+                printed = c.unit                       # read
+                again = c.unit                         # and read again
+                d = q.Measurement(1.0, 0.1)
+                try:
+                    d.unit = printed
+                except Exception as e:  # noqa
+                    return "style {}: {}(a, ..) with a in {!r}, {}: the unit prints as {!r}, which is rejected ({})".format(
+                        st.lower(), opname, us1, label, printed, type(e).__name__)
+                got = U.nonzero(as_fractions(d._unit.items()))
+                if got != expect(w) or again != printed:
+                    return "style {}: {}(a, ..) with a in {!r}, {}: the unit prints as {!r} = {} but the current exponents are {}".format(
+                        st.lower(), opname, us1, label, printed, U._show(got), U._show(expect(w)))
+        finally:
+            q.set_unit_style(q.UnitStyle.EXPONENTS)
+    return None
+
+
 def judge_api(pairs, how):
     """units produced through arithmetic, and the array edits"""
     import qexpy as q
     if how == "paths":
         return judge_paths(pairs)
+    if how == "defclear":
+        return judge_defclear(pairs)
+    if how.startswith("recalc:"):
+        return judge_recalc(pairs, how.split(":")[1])
     q.set_unit_style(q.UnitStyle.EXPONENTS)
     us = exponents_string(pairs)
     want = as_fractions(pairs)
@@ -595,6 +672,17 @@ def search(ctx, suspects, budget):
         case = {"map": [[k, v] for k, v in m]}
         if how:
             case["how"] = how
+        if how == "defclear":
+            # only meaningful from a fresh library state that was never cleared: definitions, then the first clear
+            why = judge_case(kind, case)
+            if why:
+                small = shrink_map(m, lambda p: in_domain(p) and judge_case(kind, dict(case, map=[[k, v] for k, v in p])) is not None)
+                case = dict(case, map=[[k, v] for k, v in small])
+                report(kind, case, judge_case(kind, case) or why)
+            core.fresh_impl()
+            U.clear_global_state()
+            journal = []
+            return
         why = judge_one(kind, case)
         if not why:
             journal.append([kind, case])
@@ -644,6 +732,10 @@ def search(ctx, suspects, budget):
             how = COMBOS[k % len(COMBOS)] if k <= 4 * len(COMBOS) else gen_combo(rng)
         if k % 7 == 0:
             examine("map", near_map(rng))
+        if k % 3 == 1:
+            examine("api", [(s_, int(v) if float(v).is_integer() else v) for s_, v in m], "recalc:" + rng.choice(["mul", "div", "sqrt", "mul"]))
+        if k in (2, 30) or k % 150 == 0:
+            examine("api", [(s_, int(v) if float(v).is_integer() else v) for s_, v in m], "defclear")
         ints = [(s, int(v) if float(v).is_integer() else v) for s, v in m]
         examine("api", ints, how)
         if k % 5 == 0 and journal:
